@@ -21,8 +21,8 @@ Inductive obs :=
 
 Record case := mkCase { k_heap : heap; k_actor : actor; k_op : op; k_obs : obs }.
 
-Definition is_admitted (o : outcome) : bool := match o with Admitted => true | _ => false end.
-(* model says Admitted <-> the implementation got past the access decision;
+Definition is_admitted (o : outcome) : bool := match o with Granted => true | _ => false end.
+(* model says Granted <-> the implementation got past the access decision;
    model says a specific error <-> the implementation returned exactly that error *)
 Definition agree (m : outcome) (o : obs) : bool :=
   match o with
@@ -37,7 +37,7 @@ Definition check (c : case) : bool :=
   | OGlobalize n r m => agree (globalize_check h a n r m) (k_obs c)
   | ONew ident def =>
       match new_object_check h (fun _ => def) a ident with
-      | inr _ => agree Admitted (k_obs c)
+      | inr _ => agree Granted (k_obs c)
       | inl e => agree e (k_obs c)
       end
   | OState hd =>
